@@ -23,3 +23,8 @@ claim('C07', 'exploration',
       'Trusted: pysam AlignedSegment. UMIs compared exactly; clean equality classes; spans < cache_size/4, or wider spans restricted by the documented cache_size/2 ejection margin (in_domain). Exhaustive over schedules per input, sampled over inputs.',
       'property-based testing (Hypothesis) with exhaustive schedule enumeration per input; differential oracle (never-eject) + ground-truth partition',
       'DESIGN.md section 4, C07')
+claim('C13', 'exploration',
+      'Hypothesis-generated molecules (1..12 fragments, random overlaps, mismatches, N calls, quality ties between mates, single-end / inward / overlapping / dove-tailed mates, CIGARs with S/I/D) whose Molecule.get_consensus (plain and dove_safe) is compared with an independent brute-force vote, plus metamorphic checks over insertion orders and duplication of every fragment.',
+      'Trusted: pysam get_aligned_pairs / MD parsing. Reads carry correct MD tags and read1/read2 flags; fragments of a molecule share cell, UMI and R1 orientation.',
+      'property-based testing (Hypothesis) against a brute-force reference vote + metamorphic relations (permutation, duplication)',
+      'DESIGN.md section 4, C13')
